@@ -18,6 +18,7 @@ import (
 	"bytes"
 	"encoding/base64"
 	"encoding/binary"
+	"errors"
 	"io"
 	"net"
 	"net/netip"
@@ -587,6 +588,10 @@ type RDPCorrInfo struct {
 }
 
 func (i *RDPCorrInfo) FromBytes(src []byte) error {
+	// Any RDPCorrInfo has exactly RDPCorrInfoBytesTotal bytes.
+	if len(src) != int(RDPCorrInfoBytesTotal) {
+		return ErrInvalidSourceLength
+	}
 	return binary.Read(bytes.NewBuffer(src), RDPCorrInfoBytesOrder, i)
 }
 
@@ -604,6 +609,10 @@ type RDPNegReq struct {
 }
 
 func (r *RDPNegReq) FromBytes(src []byte) error {
+	// Any RDPNegReq has exactly RDPNegReqBytesTotal bytes.
+	if len(src) != int(RDPNegReqBytesTotal) {
+		return ErrInvalidSourceLength
+	}
 	return binary.Read(bytes.NewBuffer(src), RDPNegReqBytesOrder, r)
 }
 
@@ -693,6 +702,10 @@ type TPKTHeader struct {
 }
 
 func (h *TPKTHeader) FromBytes(src []byte) error {
+	// Any TPKTHeader has exactly TPKTHeaderBytesTotal bytes.
+	if len(src) != int(TPKTHeaderBytesTotal) {
+		return ErrInvalidSourceLength
+	}
 	return binary.Read(bytes.NewBuffer(src), TPKTHeaderBytesOrder, h)
 }
 
@@ -711,6 +724,10 @@ type X224Crq struct {
 }
 
 func (x *X224Crq) FromBytes(src []byte) error {
+	// Any X224Crq has exactly X224CrqBytesTotal bytes.
+	if len(src) != int(X224CrqBytesTotal) {
+		return ErrInvalidSourceLength
+	}
 	return binary.Read(bytes.NewBuffer(src), X224CrqBytesOrder, x)
 }
 
@@ -726,6 +743,8 @@ var (
 	_ caddyfile.Unmarshaler = (*MatchRDP)(nil)
 	_ layer4.ConnMatcher    = (*MatchRDP)(nil)
 )
+
+var ErrInvalidSourceLength = errors.New("invalid source length")
 
 // Constants specific to RDP Connection Request. Packet structure is described in the comments below.
 const (
